@@ -938,3 +938,168 @@ func RunForgedQCToNextLeader(variant int, scheme string, rng *vbase.Rng, r *vbas
 	}
 	return done()
 }
+
+// RunPrivateBranch: n=7, replicas 6 and 7 Byzantine, replica 6 leader of every view, honest replica 5 cut off from the
+// honest replicas 1..4. After a common first block the leader equivocates in every view: the public block R_k (certified
+// genuinely by 1..4 and the two Byzantine replicas) goes to 1..4, the private block Z_k goes to replica 5 only. The private
+// chain has one honest vote per block, so every QC on it is FORGED - by whichever trick the variant names. If replica 5
+// accepts the forged certificates it commits Z_2 while 1..4 commit R_2. Any hole in certificate validation that lets a
+// coalition of f replicas pass a certificate without a quorum shows up here as a ledger divergence.
+func RunPrivateBranch(variant int, ruleset string, rng *vbase.Rng, r *vbase.Result, enable func(*Monitors)) *Cluster {
+	kinds := []string{"interleaved-two-signers", "repeated-signer", "rogue-key", "recut-cached-vote", "sub-quorum"}
+	kind := kinds[variant%len(kinds)]
+	scheme := "eddsa"
+	if variant/len(kinds)%2 == 1 {
+		scheme = "ecdsa"
+	}
+	cache := uint(0)
+	if kind == "recut-cached-vote" || variant%2 == 1 {
+		cache = 100
+	}
+	if kind == "rogue-key" {
+		scheme = "bls12"
+	}
+	cfg := Config{N: 7, Ruleset: ruleset, Scheme: scheme, Cache: cache, Leader: "script", Sched: []hotstuff.ID{6}, BatchSize: 1,
+		Profile: "directed:private-branch", ByzRules: map[hotstuff.ID]string{}, Scripted: []hotstuff.ID{6, 7}, RogueKey: kind == "rogue-key",
+		Label: "private-branch/" + kind}
+	c, err := NewCluster(cfg, rng, r)
+	if err != nil {
+		r.Inconclusive("cannot build private-branch cluster: " + err.Error())
+		return nil
+	}
+	enable(c.Mon)
+	byz, acc, victim := c.Actors[5], c.Actors[6], c.Actors[4]
+	public := c.Actors[:4]
+	st := byz.Byz
+	done := func() *Cluster { c.Mon.atEnd(); c.Close(); return c }
+	c.FaultSteps++
+	c.Cut = map[[2]int]bool{}
+	for _, h := range public {
+		c.Cut[[2]int{victim.Idx, h.Idx}] = true
+	}
+	c.CutLoss = true
+	q := c.W.Q()
+	propose := func(b *hotstuff.Block, to ...*Actor) {
+		c.registerByzBlock(byz, b)
+		c.trace(TraceEntry{Kind: "byz", From: byz.Name(), What: "propose", View: uint64(b.View())})
+		for _, o := range to {
+			c.enqueue(byz, o, hotstuff.ProposeMsg{ID: byz.ID, Block: b})
+		}
+	}
+	// the accomplice votes for whatever the leader proposes publicly
+	genuineQC := func(b *hotstuff.Block) (hotstuff.QuorumCert, bool) {
+		if pc, err := acc.M.Auth.CreatePartialCert(b); err == nil {
+			dup := false
+			for _, v := range st.votes {
+				if v.BlockHash() == b.Hash() && v.Signer() == acc.ID {
+					dup = true
+				}
+			}
+			if !dup {
+				st.votes = append(st.votes, pc)
+			}
+		}
+		return c.byzQC(byz, b)
+	}
+	forge := func(b *hotstuff.Block) hotstuff.QuorumSignature {
+		msg := b.ToBytes()
+		sa, ea := byz.M.Auth.Sign(msg)
+		sb, eb := acc.M.Auth.Sign(msg)
+		if ea != nil || eb != nil {
+			return nil
+		}
+		switch kind {
+		case "interleaved-two-signers":
+			var ids []hotstuff.ID
+			var raws [][]byte
+			for i := 0; i < q; i++ {
+				if i%2 == 0 {
+					ids, raws = append(ids, acc.ID), append(raws, sb.ToBytes())
+				} else {
+					ids, raws = append(ids, byz.ID), append(raws, sa.ToBytes())
+				}
+			}
+			return c.sigInterleaved(ids, raws)
+		case "repeated-signer":
+			return c.sigRepeated(byz, msg, q)
+		case "rogue-key":
+			if st.rogue == nil {
+				return nil
+			}
+			return st.rogue.Forge(msg)
+		case "recut-cached-vote":
+			// the victim's own vote for b (cached at the victim when it signed) re-cut into q entries: first signer kept, the
+			// other "signer ids" carved out of the signature's first bytes
+			var x []byte
+			for _, v := range st.votes {
+				if v.BlockHash() == b.Hash() && v.Signer() == victim.ID {
+					x = v.Signature().ToBytes()
+				}
+			}
+			if len(x) < 4*(q-1)+q {
+				return nil
+			}
+			ids := []hotstuff.ID{victim.ID}
+			rest := x[4*(q-1):]
+			chunk := len(rest) / q
+			raws := [][]byte{rest[:chunk]}
+			for k := 0; k < q-1; k++ {
+				ids = append(ids, hotstuff.ID(uint32(x[4*k])|uint32(x[4*k+1])<<8|uint32(x[4*k+2])<<16|uint32(x[4*k+3])<<24))
+				end := chunk * (k + 2)
+				if k == q-2 {
+					end = len(rest)
+				}
+				raws = append(raws, rest[chunk*(k+1):end])
+			}
+			return c.sigInterleaved(ids, raws)
+		default: // sub-quorum: the three genuine signatures there are (victim's vote, if seen, and the two Byzantine ones)
+			ids := []hotstuff.ID{byz.ID, acc.ID}
+			raws := [][]byte{sa.ToBytes(), sb.ToBytes()}
+			for _, v := range st.votes {
+				if v.BlockHash() == b.Hash() && v.Signer() == victim.ID {
+					ids, raws = append(ids, victim.ID), append(raws, v.Signature().ToBytes())
+				}
+			}
+			if scheme == "bls12" {
+				return nil
+			}
+			return c.sigInterleaved(ids, raws)
+		}
+	}
+	c.Start()
+	c.Step = 1
+	gen := hotstuff.GetGenesis()
+	X := hotstuff.NewBlock(gen.Hash(), hotstuff.NewQuorumCert(nil, 0, gen.Hash()), c.byzBatch(byz), 1, byz.ID)
+	propose(X, append(append([]*Actor{}, public...), victim)...)
+	var qcX hotstuff.QuorumCert
+	if !c.roundsUntil(10, func() bool { var ok bool; qcX, ok = genuineQC(X); return ok }) {
+		c.R.Obs("private_branch_setup_failed", 1)
+		return done()
+	}
+	parentR, qcR := X, qcX
+	parentZ := X
+	qcZ := qcX
+	for v := hotstuff.View(2); v <= 7 && c.Panic == nil && len(c.Mon.Viol) == 0; v++ {
+		R := hotstuff.NewBlock(parentR.Hash(), qcR, c.byzBatch(byz), v, byz.ID)
+		Z := hotstuff.NewBlock(parentZ.Hash(), qcZ, c.byzBatch(byz), v, byz.ID)
+		propose(R, public...)
+		propose(Z, victim)
+		var ok bool
+		if !c.roundsUntil(10, func() bool { qcR, ok = genuineQC(R); return ok }) {
+			c.R.Obs("private_branch_setup_failed", 1)
+			return done()
+		}
+		parentR = R
+		fs := forge(Z)
+		if fs == nil {
+			c.R.Obs("private_branch_forgery_not_applicable", 1)
+			return done()
+		}
+		qcZ = hotstuff.NewQuorumCert(fs, Z.View(), Z.Hash())
+		parentZ = Z
+		c.R.Obs("private_branch_forged_qcs_presented", 1)
+	}
+	c.R.Obs("private_branch_victim_commits", int64(len(c.Mon.commits[victim.Idx])))
+	c.R.Obs("private_branch_public_commits", int64(len(c.Mon.commits[0])))
+	return done()
+}
